@@ -18,7 +18,7 @@ fn main() {
         let v: serde_json::Value = serde_json::from_str(args.get(3).map(|s| s.as_str()).unwrap_or("null")).unwrap_or(serde_json::Value::Null);
         replay_cell("rustls", &v).map(|r| vec![r])
     } else {
-        run_matrix("rustls", args[2] == "thorough")
+        run_matrix("rustls", args[2] == "thorough", args.get(3).and_then(|s| s.parse().ok()).unwrap_or(0))
     };
     match results {
         Ok(rs) => {
